@@ -39,7 +39,7 @@ Proof. exact coalesce_nothing_qualifies. Qed.
 Print Assumptions C08_coalesce_nothing_qualifies.
 
 (** a field path computes the fold of [field] over its names, at any offset of any block *)
-Theorem C08_path_run : forall rs E d, e_bound E = true ->
+Theorem C08_path_run : forall rs E d, e_bound E = true -> folding E = false ->
   forall fs v st lg,
     Forall (plainv) (path_vals v fs) ->
     (forall f, In f fs -> has_func E f = false /\ has_macro E f = false) ->
